@@ -99,6 +99,11 @@ type pathState struct {
 	unknownBr  int
 	pcLen      int
 	pcSet      map[int]bool
+	parent     *pathState // enclosing context of a nested (pure-call) exploration
+	nested     bool
+	localPC    []*smt.Term
+	pcHash     uint64
+	memo       map[string]value // summaries of heap-independent pure calls, per path
 }
 
 // endPath is the panic payload used to terminate the current path.
@@ -136,6 +141,10 @@ func (i *interpreter) assertPC(t *smt.Term) {
 		i.path.pcSet = map[int]bool{}
 	}
 	i.path.pcSet[t.ID] = true
+	i.path.pcHash = (i.path.pcHash ^ uint64(t.ID+1)) * 1099511628211
+	if i.path.nested {
+		i.path.localPC = append(i.path.localPC, t)
+	}
 	// conjunctions: record the conjuncts too
 	if t.Op == smt.OAnd {
 		for _, a := range t.Args {
@@ -158,12 +167,22 @@ func (i *interpreter) truth(v value) bool {
 	panic(fmt.Sprintf("truth: %T", v))
 }
 
+// inPC reports whether t is a conjunct of the current (or an enclosing) path condition.
+func (p *pathState) inPC(id int) bool {
+	for q := p; q != nil; q = q.parent {
+		if q.pcSet[id] {
+			return true
+		}
+	}
+	return false
+}
+
 func (i *interpreter) decide(cond *smt.Term) bool {
 	p := i.path
-	if p.pcSet[cond.ID] {
+	if p.inPC(cond.ID) {
 		return true
 	}
-	if p.pcSet[i.ctx.Not(cond).ID] {
+	if p.inPC(i.ctx.Not(cond).ID) {
 		return false
 	}
 	if i.noFork {
@@ -196,26 +215,38 @@ func (i *interpreter) decide(cond *smt.Term) bool {
 		other = i.ctx.Not(cond)
 	}
 	res, m2 := i.solver.Check(other, true, p.nondets)
-	switch res {
-	case smt.Sat:
-		alt := append(append([]Decision(nil), p.decisions...), Decision{Kind: 'b', B: !mv})
-		p.children = append(p.children, WorkItem{Prefix: alt, Model: m2})
-		p.symBranch++
-	case smt.Unknown:
-		// sound: keep the branch, without a model
-		alt := append(append([]Decision(nil), p.decisions...), Decision{Kind: 'b', B: !mv})
-		p.children = append(p.children, WorkItem{Prefix: alt})
+	otherFeasible := res != smt.Unsat
+	if res == smt.Unknown {
 		p.unknownBr++
+		m2 = nil
+	}
+	// which side to follow now: the model's side, except in nested (merged) explorations
+	// where the order must not depend on the model (true first), so that the merged term
+	// is the same on every re-execution
+	take := mv
+	takeModel, altModel := p.model, m2
+	if p.nested && otherFeasible && !mv {
+		take = true
+		takeModel, altModel = m2, p.model
+	}
+	if otherFeasible {
+		alt := append(append([]Decision(nil), p.decisions...), Decision{Kind: 'b', B: !take})
+		p.children = append(p.children, WorkItem{Prefix: alt, Model: altModel})
 		p.symBranch++
 	}
-	p.decisions = append(p.decisions, Decision{Kind: 'b', B: mv})
+	p.decisions = append(p.decisions, Decision{Kind: 'b', B: take})
 	p.pos++
-	if mv {
+	if take {
 		i.assertPC(cond)
 	} else {
 		i.assertPC(i.ctx.Not(cond))
 	}
-	return mv
+	if takeModel == nil {
+		p.model, p.modelValid = nil, false
+	} else {
+		p.model, p.modelValid = takeModel, true
+	}
+	return take
 }
 
 // concretize picks a concrete value for x, forking over all feasible values (bounded).
